@@ -185,6 +185,11 @@ void Cell::convex_hull(Array<Vec2>& result) const {
 }
 
 GeometryInfo Cell::convex_hull(Map<GeometryInfo>& cache) const {
+    {
+        // Already computed for this cache: computing it again would append to the stored hull
+        GeometryInfo cached = cache.get(name);
+        if (cached.convex_hull_valid) return cached;
+    }
     Array<Vec2> points = {};
     Array<Vec2> offsets = {};
 
